@@ -247,6 +247,7 @@ def run(ctx, rep):
             rep.violated("C04/areagate", "the area only gates the documented rejection", construct=where,
                          why=tm.show(bad_gate, 4))
     by_source_priority(ctx, rep)
+    by_service_by_source(ctx, rep)
     rep.analysed = {"balance_leaves": n_tot, "balance_m2_leaves": n_m2}
     rep.floor("balance-leaves", n_tot, 100)
     rep.floor("balance-m2-leaves", n_m2, 100)
@@ -369,3 +370,75 @@ def by_source_priority(ctx, rep):
             else:
                 rep.violated(key, "the by-source breakdown of the produced energy used on site adds up to the total", construct=where,
                              why="total - Σ parts = %s" % A.show(alg.padd(tot, parts, -1), 3)[:400])
+
+
+def by_service_by_source(ctx, rep, prefix="C04/bysrv-bysrc", only_carrier=None, only_service=None, floor=20):
+    """Produced energy used on site, by source and by service: each per-step value is the used production of
+    that source times the share of the service in the EPB use of that step (0 where there is no use);
+    the annual value is its sum over the steps.  This is the quantity the DHW indicator reads."""
+    n = 0
+    for lm in (False, True):
+        e = epmodel.ep(ctx, lm)
+        where = loc_of(e.body)
+        A = alg.Algebra()
+        for (ci, cname, pres, bc) in e.carriers():
+            if pres is tm.FALSE or (only_carrier and cname != only_carrier):
+                continue
+            try:
+                m_t = get(bc, "prod", "epus_by_srv_by_src_t")
+                m_an = get(bc, "prod", "epus_by_srv_by_src_an")
+                by_src = dict((nm, v) for nm, p, v in emap_items(get(bc, "prod", "epus_by_src_t")) if p is not tm.FALSE)
+                by_srv = dict((nm, v) for nm, p, v in emap_items(get(bc, "used", "epus_by_srv_t")) if p is not tm.FALSE)
+                use = A.pw(get(bc, "used", "epus_t"))
+            except AnchorMissing as ex:
+                rep.violated("%s/anchor/%s" % (prefix, cname), "prod.epus_by_srv_by_src_t is a map source -> service -> per-step values",
+                             construct=where, why=str(ex))
+                continue
+            an = dict((sn, dict((vn, (vv, [sp, vp])) for vn, vp, vv in emap_items(sv) if vp is not tm.FALSE))
+                      for sn, sp, sv in emap_items(m_an) if sp is not tm.FALSE and sv.op == "emap")
+            for sn, sp, sv in emap_items(m_t):
+                if sp is tm.FALSE or sv.op != "emap" or sn not in by_src:
+                    continue
+                for vn, vp, vv in emap_items(sv):
+                    if vp is tm.FALSE or vn not in by_srv or (only_service and vn != only_service):
+                        continue
+                    n += 1
+                    key = "%s/%s/%s/%s/lm=%d" % (prefix, cname, sn, vn, lm)
+                    try:
+                        got = A.pw(vv)
+                        base = alg.pmul(alg.pmul(A.pw(by_src[sn]), A.pw(by_srv[vn])), A.inv(use))
+                    except alg.NotScalar as ex:
+                        rep.underivable(key, "used production by source and service is numeric", construct=where, why=str(ex))
+                        continue
+                    # the share is taken only where there is use: [0 < use]
+                    ok = (got == base)
+                    if not ok:
+                        for aid in got.atoms():
+                            a2 = A.atoms[aid]
+                            if a2.kind == "ind":
+                                ck = a2.parts[1]
+                                if isinstance(ck, tuple) and ck[0] == "lt0" and A.poly_of_pid(ck[1]) == alg.pscale(use, -1):
+                                    if got == alg.pmul(alg.Poly({((a2.id, 1),): 1}), base):
+                                        ok = True
+                    ok_an = True
+                    if sn in an and vn in an[sn]:
+                        try:
+                            # where the entry is present the annual value is literally Σ_t of the per-step entry
+                            sub = {}
+                            for c in an[sn][vn][1] + [sp, vp]:
+                                for cj in (c.a if c.op == "and" else (c,)):
+                                    sub[cj] = tm.TRUE
+                            red = tm.subst(an[sn][vn][0], sub)
+                            got_p = A.pw(tm.subst(vv, sub))
+                            ok_an = (red.op == "sum" and red.a[0].op == "iter" and A.pw(red.a[0].a[0]) == got_p) or \
+                                A.scalar(red) == A.sumt(got_p)
+                        except alg.NotScalar:
+                            ok_an = False
+                    if ok and ok_an:
+                        rep.discharged(key, "used production of %s going to %s = used production of the source x share of the service in the use of that step; annual = Σ_t"
+                                       % (sn, vn))
+                    else:
+                        rep.violated(key, "produced energy used on site is split among services by their share of the EPB use, step by step",
+                                     construct=where, why=("per-step value differs from used_by_source x use_by_service / use: %s" % A.show(alg.padd(got, base, -1), 3)[:300])
+                                     if not ok else "annual value is not the sum of the per-step values")
+    rep.floor("by-service-by-source", n, floor)
